@@ -967,7 +967,9 @@ pub mod checks {
                      "'\\u0061'", "'\\u263A'", "'\\u263a'", "'a\\/b'", "'a\"b'", "\"a\\\"b\"", "'zz'", "zz", "'\\\"d\\\"'",
                      "'a\\\\/b'", "'\\\\\\\\'", "'\\\\/'", "'\\/'", "\"'a'\"", "\"'q'\"", "'\\u00E9'", "'\\u00E9\\u00E9'", "'\\u00e9'", "'a\\u0020b'", "'\\uD83D\\uDE00'", "'\\'a'", "'dogs\\''", "'\\''", "\"'a\"", "\"dogs'\"", "'\\uD834\\uDD1E'", "'\\uDC00'",
                      // blank space inside the quotes is part of the name (the document has `a`, `ab`, `a b` but none of these)
-                     "' a'", "'a '", "' a '", "\" a\"", "'ab '", "'  '", "' a b'", "'a  b'", "'\ta'"];
+                     "' a'", "'a '", "' a '", "\" a\"", "'ab '", "'  '", "' a b'", "'a  b'", "'\ta'",
+                     // names of hand-built ASTs with a quote character at ONE end (not quoted texts): looked up verbatim
+                     "dogs'", "'a", "a'b"];
         for (ti, t) in texts.iter().enumerate() {
             rep.evaluations += 1;
             let want: Vec<(usize, String)> = match name_of(t) {
@@ -988,7 +990,8 @@ pub mod checks {
                     let (gi, wi): (Vec<usize>, Vec<usize>) = (g.iter().map(|x| x.0).collect(), want.iter().map(|x| x.0).collect());
                     if g != want && g != known { feats.clear(); feats.push("differs-from-known-name-lookup".to_string()); }
                     if gi != wi { rep.fail(if gi.is_empty() { "process_key.member" } else { "process_key.wrong_member" }, &feats, json!({"selector_text": t, "qi": ti, "observed": g.iter().map(|x| &x.1).collect::<Vec<_>>(), "expected": want.iter().map(|x| &x.1).collect::<Vec<_>>()})); }
-                    else if g != want { rep.fail("process_key.path", &feats, json!({"selector_text": t, "qi": ti, "observed": g.iter().map(|x| &x.1).collect::<Vec<_>>(), "expected": want.iter().map(|x| &x.1).collect::<Vec<_>>()})); }
+                    else if g != want && !(name_of(t).as_deref() == Some(*t) && t.contains('\'')) {   // (the path text of names that need escaping: pointer_text)
+                        rep.fail("process_key.path", &feats, json!({"selector_text": t, "qi": ti, "observed": g.iter().map(|x| &x.1).collect::<Vec<_>>(), "expected": want.iter().map(|x| &x.1).collect::<Vec<_>>()})); }
                 }
             }
         }
